@@ -200,5 +200,5 @@ func runShipped(p *plat.Platform, cs *Case, res *Result) {
 	progress.Add(1)
 	b.Run()
 	progress.Add(1)
-	dumpBuffers(p.Driver, res, map[uint64]string{})
+	dumpBuffers(p.Driver, res, map[uint64]string{}, nil)
 }
